@@ -84,21 +84,45 @@ Theorem C43_future_completed : forall e c polls, f_final_set (schema_change_path
 Proof. exact future_completed. Qed.
 Print Assumptions C43_future_completed.
 
+(* observers of the completed request (add_callback callbacks, result() waiters) see the recorded flag: it is assigned BEFORE
+   the result is delivered *)
+Theorem C43_future_at_delivery : forall e c polls,
+  f_at_delivery (schema_change_path e c polls) = Some (f_is_schema_agreed (schema_change_path e c polls)).
+Proof. exact future_at_delivery. Qed.
+Print Assumptions C43_future_at_delivery.
+
+(* peers(_v2) table rows: a row counts for the host known under (address, native_port); the default port is used only when the
+   row has no positive native_port (peers v1) *)
+Theorem C43_rows_counted_by_endpoint : forall d h local rows v,
+  reported h (RSn d local rows) v <->
+  local = Some (Some v) \/ exists a p, In (a, p, Some v) rows /\ counted h (row_endpoint d (a, p, Some v)) = true.
+Proof. exact raw_reported. Qed.
+Print Assumptions C43_rows_counted_by_endpoint.
+
+Theorem C43_native_port_is_the_port : forall d a p v, 0 < p -> row_endpoint d (a, Some p, v) = (a, p).
+Proof. exact row_endpoint_port. Qed.
+Print Assumptions C43_native_port_is_the_port.
+
 (* non-vacuity: a script with a disagreement, a timeout, a down peer that disagrees and an unknown peer that disagrees;
    agreement is reached at poll 2 with 1 s budget, and the future records it even with schema metadata disabled *)
-Definition ex_hosts : hoststates := [(1, Up); (2, Down); (100, Unknown)].
+Definition ex_hosts : hoststates := [((1, 9042), Up); ((2, 9043), Down); ((100, 9042), Unknown)].
 Definition ex_polls : list poll :=
-  [ Pl (RSnap (Sn (Some (Some 7)) [(1, Some 8); (2, Some 7)])) ex_hosts 10;
+  [ Pl (RSnap (RSn 9042 (Some (Some 7)) [(1, None, Some 8); (2, Some 9043, Some 7)])) ex_hosts 10;
     Pl RTimeout ex_hosts 0;
-    Pl (RSnap (Sn (Some (Some 8)) [(1, Some 8); (2, Some 7); (3, Some 9)])) ex_hosts 5 ].
+    Pl (RSnap (RSn 9042 (Some (Some 8)) [(1, Some 9042, Some 8); (2, Some 9043, Some 7); (3, Some 9042, Some 9)])) ex_hosts 5 ].
 Example C43_nonvacuous_run : wait (Build_cfg 1000 300) false None ex_polls =
   ([EQuery 300; ESleep 200; EQuery 300; EQuery 300], Agreed 2).
 Proof. reflexivity. Qed.
 Example C43_nonvacuous_prefix : snd (wait (Build_cfg 1000 300) false None (firstn 2 ex_polls)) = More 2 510.
 Proof. reflexivity. Qed.
+(* a lagging peer on a non-default native port is counted (and blocks agreement) exactly because it is matched by its own port *)
+Example C43_nonvacuous_port :
+  agreed [((1, 9043), Up)] (RSn 9042 (Some (Some 7)) [(1, Some 9043, Some 8)]) = false /\
+  agreed [((1, 9043), Up)] (RSn 9042 (Some (Some 7)) [(1, None, Some 8)]) = true.
+Proof. split; reflexivity. Qed.
 Example C43_nonvacuous_future :
   f_is_schema_agreed (schema_change_path (Build_env false false false false) (Build_cfg 1000 300) ex_polls) = true.
 Proof. reflexivity. Qed.
 Example C43_nonvacuous_disagree :
-  snd (wait (Build_cfg 500 300) false None (repeat (Pl (RSnap (Sn (Some (Some 7)) [(1, Some 8)])) ex_hosts 0) 5)) = Disagreed 600.
+  snd (wait (Build_cfg 500 300) false None (repeat (Pl (RSnap (RSn 9042 (Some (Some 7)) [(1, None, Some 8)])) ex_hosts 0) 5)) = Disagreed 600.
 Proof. reflexivity. Qed.
